@@ -58,8 +58,8 @@ class Undecided(Exception):
     pass
 
 
-def run_verus(path, rlimit=None, seed=None, timeout=900, extra=None):
-    cmd = [VERUS, path, '--output-json', '--time', '--multiple-errors', '50', '--no-report-long-running']
+def run_verus(path, rlimit=None, seed=None, timeout=900, extra=None, multi=50):
+    cmd = [VERUS, path, '--output-json', '--time', '--multiple-errors', str(multi), '--no-report-long-running']
     if rlimit:
         cmd += ['--rlimit', str(rlimit)]
     if seed:
@@ -290,7 +290,7 @@ def process_unit(u, findings, workdir, seed, rlimit_mult=1, variants=('main', 's
         jobs[v] = path
     rl = (u.rlimit or 10) * rlimit_mult
     with cf.ThreadPoolExecutor(max_workers=3) as ex:
-        futs = {v: ex.submit(run_verus, p, rl, seed) for v, p in jobs.items()}
+        futs = {v: ex.submit(run_verus, p, rl, seed, 900, None, 0 if v == 'canary' else 50) for v, p in jobs.items()}
         for v, fu in futs.items():
             ur.results[v] = fu.result()
     for v, res in ur.results.items():
